@@ -10,12 +10,75 @@ def prop(pid, explanation, rules, assumptions=()):
     PROPERTIES[pid] = dict(explanation=explanation, rules=rules, assumptions=list(assumptions))
 
 
+_VIEW = {}
+
+
+def _inlined(prog):
+    from . import inline
+    v = _VIEW.get(id(prog))
+    if v is None:
+        v = inline.inlined_view(prog)
+        _VIEW.clear()
+        _VIEW[id(prog)] = v
+    return v
+
+
+def _with_time_limit(fn, seconds):
+    """the second opinion must not turn a check into an endless one: give up (and keep the first verdict) after a while"""
+    import signal
+
+    class _Timeout(Exception):
+        pass
+
+    def _h(_s, _f):
+        raise _Timeout()
+    try:
+        old = signal.signal(signal.SIGALRM, _h)
+    except Exception:
+        return fn()
+    signal.alarm(seconds)
+    try:
+        return fn()
+    finally:
+        signal.alarm(0)
+        signal.signal(signal.SIGALRM, old)
+
+
+def _known_keys():
+    import json, os
+    try:
+        d = json.load(open(os.path.join(os.path.dirname(os.path.dirname(os.path.abspath(__file__))), 'known_findings.json')))
+        return {f['key'] for f in d.get('findings', []) if f.get('status') == 'known'}
+    except Exception:
+        return set()
+
+
 def run_property(prog, pid, tier, repo, static_only=False):
+    """Each rule is decided on the program as written. If it reports something there, it is decided once more on the view of
+    the program in which small private helper functions are inlined into their callers (sa/inline.py): inlining preserves
+    behaviour, so a structural condition that holds on the inlined view holds for the code - the first verdict was an artefact
+    of how the code is split into functions. The second verdict is used only when it is clean."""
     out = []
+    known = None
     for r in PROPERTIES[pid]['rules']:
         if static_only and getattr(r, 'needs_repo_build', False):
             continue
-        out.extend(r(prog, tier, repo))
+        results = list(r(prog, tier, repo))
+        if not getattr(r, 'needs_repo_build', False):
+            if known is None:
+                known = _known_keys()
+            bad = [i for res in results for i in res.instances if i.status == 'violation' and i.full_key() not in known]
+            if bad:
+                try:
+                    again = _with_time_limit(lambda: list(r(_inlined(prog), tier, repo)), 150)
+                    bad2 = [i for res in again for i in res.instances if i.status == 'violation' and i.full_key() not in known]
+                    if not bad2 and again:
+                        for res in again:
+                            res.analysed['decided_on'] = 'the view with private helper functions inlined (the code as written splits the shape across functions)'
+                        results = again
+                except Exception:
+                    pass
+        out.extend(results)
     return out
 
 
